@@ -311,6 +311,11 @@ def run_script(b: Batch, script, hold_plan=None, instr=None, ctx=None):
     for r in log:
         if "exc" in r:
             errs.append(("op-raised", f"{r['op']} raised {r['exc']}"))
+    close_calls = [r["seq_call"] for r in log if r["op"] == "close"]
+    for r in log:
+        if r["op"] == "get" and "exc" not in r and r.get("result") is None:
+            if not close_calls or r["seq_ret"] < min(close_calls):
+                errs.append(("end-marker-without-close", "get() returned the end marker although close() had not been called"))
     outs = handed_out(log)
     ids = [x for x, _, _ in outs]
     if len(ids) != len(set(ids)):
@@ -410,6 +415,9 @@ def instr_for(seed):
 
     ins = Instr(seed=seed)
     ins.watch(DelayedQueue.get, DelayedQueue.put, DelayedQueue.remove, DelayedQueue.close)
+    # the stdlib wait(): lets a hold park the consumer after it was notified and before it re-takes the queue's lock
+    # (the window of a "stolen wake-up")
+    ins.watch(threading.Condition.wait)
     return ins
 
 
@@ -429,6 +437,8 @@ def discover(seed):
         kind = ROLE_KIND.get(role)
         if kind and qn == f"DelayedQueue.{kind}":
             pts.append((role, qn, line))
+        elif role == "wdv-consumer" and qn == "Condition.wait" and isinstance(line, int):
+            pts.append((role, qn, line))
     return sorted(pts, key=lambda t: (t[0], t[1], str(t[2])))
 
 
@@ -437,6 +447,12 @@ def hold_script(r, role):
     pre = [("put", True)] if r.random() < 0.7 else []
     pre += rand_script(r, r.randint(1, 5))
     pre = [op for op in pre if op[0] != "close"]
+    if role == "wdv-consumer" and r.random() < 0.5:
+        # stolen wake-up template: the consumer waits on an empty queue, is notified by a put and parked before it re-takes
+        # the lock, while a remove() takes the element away
+        pre = [("get",)]
+        post = [("put", r.random() < 0.5), ("remove", 0)] + ([("put", False)] if r.random() < 0.5 else []) + [("adv", 2 * D)]
+        return pre + post, len(pre)
     kind = ROLE_KIND[role]
     own = {"get": ("get",), "put": ("put", r.random() < 0.5), "remove": ("remove", r.choice([0, 1, 1])), "close": ("close",)}[kind]
     partners = []
